@@ -312,6 +312,14 @@ def check_fresh_diagnostics(ctx, P):
             if not (v[0] == "agg" and v[2] == "None"):
                 marks[(b, i)] = "retsome"
     for b, c in call_sites(f):
+        cal = c.get("callee") or ""
+        # `self.diag.insert(v)` / `.replace(v)` store Some(v) (core::option): the same store, and `insert` hands back the reference
+        if (cal.endswith("option::Option::<T>::insert") or cal.endswith("option::Option::<T>::replace")) and len(c["args"]) == 2:
+            a0 = strip_refs(tb.joperand(c["args"][0]))
+            if (path_str(a0) or "").endswith("self.diag"):
+                marks[(b, None)] = "store+retsome" if mk_place(c["dest"]) == (0, ()) else "store"
+                nstore += 1
+                continue
         if mk_place(c["dest"]) == (0, ()):
             marks[(b, None)] = "retsome"
     ctx.anchor("stores of the decoded diagnostics in handle_diagnostics_response", nstore, 1)
